@@ -185,6 +185,19 @@ def cell_type_changed(b, l, r):
     return False
 
 
+def nul_source_edited_twice(b, l, r):
+    """Input class of F30: a cell source with a NUL character that both sides
+    changed (cells taken by position; only used when the cell lists line up)."""
+    cb, cl, cr = (n.get("cells", []) for n in (b, l, r))
+    if not (len(cb) == len(cl) == len(cr)):
+        return False
+    for x, y, z in zip(cb, cl, cr):
+        sx_, sy, sz = x.get("source", ""), y.get("source", ""), z.get("source", "")
+        if "\x00" in sx_ + sy + sz and sy != sx_ and sz != sx_:
+            return True
+    return False
+
+
 def mixed_id_versions(b, l, r):
     """Input class of F21: one input declares format 4.5 while another one is
     older and has cells without ids."""
@@ -211,6 +224,11 @@ def merge_obligations(E, b, l, r, args, tool, props, known, info=None):
             s_ and not s_.endswith("\n") for nb in (b, l, r) for s_ in source_lines(nb)):
         # F13: diff3 glues its markers to a last line that has no newline
         E.known("F13")
+        return None
+    if "F30" in known and tool == "diff3" and ("C07" in props) and nul_source_edited_twice(b, l, r):
+        # F30, diff3 form: diff3 refuses the "binary" input and prints nothing,
+        # the merged source silently becomes ''
+        E.known("F30")
         return None
     if c13:
         snaps = (snapshot(b), snapshot(l), snapshot(r))
